@@ -928,7 +928,17 @@ func opSD(o *out.Out, s sgn, t txf) (string, common.Address) {
 	if berr != nil {
 		panic(berr)
 	}
-	pan := catch(func() { from, err = types.Sender(s.real(), tx) })
+	var from2 common.Address
+	var err2 error
+	pan := catch(func() {
+		from, err = types.Sender(s.real(), tx)
+		// asking the same object again (sender cache) must give the same answer: in particular a
+		// failed derivation must not leave a zero address behind that a later call returns without error
+		from2, err2 = types.Sender(s.real(), tx)
+	})
+	if !pan && ((err == nil) != (err2 == nil) || from != from2) {
+		o.Fail(step, "sender-cache-stale", fmt.Sprintf("second Sender call on the same transaction under %s returns (%s, %v) after (%s, %v); V=%s", s.tok(), from2.Hex(), err2, from.Hex(), err, t.v))
+	}
 	res := ""
 	switch {
 	case pan:
